@@ -49,6 +49,10 @@ pub enum Op {
     A,
     /// allocate_multiplier
     M,
+    /// allocate with no assignment on the prover (expects MissingAssignment); plain allocate on the verifier
+    AN,
+    /// allocate_multiplier with no assignment on the prover; plain on the verifier
+    MN,
     /// multiply(shape, shape)
     X(Shape, Shape),
     /// constrain(shape - value(shape))
@@ -107,6 +111,8 @@ impl Op {
             Op::C => "C".into(),
             Op::A => "A".into(),
             Op::M => "M".into(),
+            Op::AN => "An".into(),
+            Op::MN => "Mn".into(),
             Op::X(l, r) => format!("X{}{}", s(*l), s(*r)),
             Op::K(x) => format!("K{}", s(*x)),
             Op::T => "T".into(),
@@ -135,6 +141,8 @@ impl Op {
             ('M', 1) => Some(Op::M),
             ('T', 1) => Some(Op::T),
             ('Z', 1) => Some(Op::Z),
+            ('A', 2) if cs[1] == 'n' => Some(Op::AN),
+            ('M', 2) if cs[1] == 'n' => Some(Op::MN),
             ('K', 2) => Some(Op::K(sh(cs[1])?)),
             ('X', 3) => Some(Op::X(sh(cs[1])?, sh(cs[2])?)),
             _ => None,
@@ -209,6 +217,43 @@ impl Program {
     }
     pub fn total_ops(&self) -> usize {
         self.p1.len() + self.closures.iter().map(|c| c.len()).sum::<usize>()
+    }
+    /// static counts from an abstract run of the allocator: (witness inputs, explicit constraints, gates, phase-1 gates)
+    pub fn stats(&self) -> (usize, usize, usize, usize) {
+        fn step(op: &Op, pending: &mut bool, w: &mut usize, k: &mut usize, g: &mut usize) {
+            match op {
+                Op::C => *w += 1,
+                Op::A | Op::AN => {
+                    *w += 1;
+                    if *pending {
+                        *pending = false
+                    } else {
+                        *g += 1;
+                        *pending = true
+                    }
+                }
+                Op::M | Op::MN => {
+                    *w += 2;
+                    *g += 1
+                }
+                Op::X(..) => *g += 1,
+                Op::K(_) => *k += 1,
+                _ => {}
+            }
+        }
+        let (mut w, mut k, mut g) = (0, 0, 0);
+        let mut pending = false;
+        for op in &self.p1 {
+            step(op, &mut pending, &mut w, &mut k, &mut g);
+        }
+        pending = false;
+        let n1 = g;
+        for c in &self.closures {
+            for op in c {
+                step(op, &mut pending, &mut w, &mut k, &mut g);
+            }
+        }
+        (w, k, g, n1)
     }
     /// number of T ops
     pub fn t_ops(&self) -> usize {
@@ -430,6 +475,10 @@ pub struct Ctx<F: PrimeField> {
     /// app data appended by T ops, in order (what was actually appended)
     pub appended: Vec<Vec<u8>>,
     pub closures_run: usize,
+    /// set when the prover answered MissingAssignment to AN/MN: the history ends there
+    pub missing: bool,
+    /// what the prover returned for AN/MN when it was not the expected error
+    pub missing_wrong: Option<String>,
 }
 
 impl<F: PrimeField> Ctx<F> {
@@ -456,6 +505,8 @@ impl<F: PrimeField> Ctx<F> {
             witness_sites: 0,
             appended: vec![],
             closures_run: 0,
+            missing: false,
+            missing_wrong: None,
         }
     }
     fn next_value(&mut self) -> F {
@@ -587,6 +638,34 @@ fn t_append<F: PrimeField>(ctx: &mut Ctx<F>, side: &mut dyn Side<F>, data: Vec<u
 /// Execute one op on the real constraint system and on the reference model in lockstep.
 pub fn exec_op<F: PrimeField>(op: Op, ctx: &mut Ctx<F>, side: &mut dyn Side<F>) {
     let is_v = ctx.role == Role::Verifier;
+    if ctx.missing {
+        return; // the history ended at the MissingAssignment error
+    }
+    let op = match op {
+        Op::AN | Op::MN if !is_v => {
+            // prover side: no assignment. Expect the error, no variable, no state change.
+            let before = side.cs().multipliers_len();
+            let res = if op == Op::AN {
+                side.cs().allocate(None).map(|v| format!("{:?}", v))
+            } else {
+                side.cs().allocate_multiplier(None).map(|v| format!("{:?}", v))
+            };
+            match res {
+                Err(ark_bulletproofs::r1cs::R1CSError::MissingAssignment) => {}
+                other => ctx.missing_wrong = Some(format!("{:?}", other)),
+            }
+            let after = side.cs().multipliers_len();
+            if after != before {
+                ctx.problems.push(format!("{}: multipliers_len changed {} -> {} although the call failed", op.name(), before, after));
+            }
+            ctx.missing = true;
+            ctx.opcount += 1;
+            return;
+        }
+        Op::AN => Op::A,
+        Op::MN => Op::M,
+        o => o,
+    };
     if is_v {
         if let Dev::TInsert { at } = ctx.dev {
             if at == ctx.opcount {
@@ -698,6 +777,7 @@ pub fn exec_op<F: PrimeField>(op: Op, ctx: &mut Ctx<F>, side: &mut dyn Side<F>) 
                 t_append(ctx, side, data);
             }
         }
+        Op::AN | Op::MN => unreachable!(),
         Op::Z => {
             let z = side.challenge();
             ctx.z = Some(z);
@@ -818,7 +898,7 @@ impl<'a, F: PrimeField, R: RandomizedConstraintSystem<F>> Side<F> for Side2<'a, 
 
 pub type SharedCtx<F> = Rc<RefCell<Ctx<F>>>;
 
-fn run_closure<F: PrimeField>(ctx: &SharedCtx<F>, ops: &[Op], side: &mut dyn Side<F>, idx: usize, total: usize) {
+fn run_closure<F: PrimeField>(ctx: &SharedCtx<F>, ops: &[Op], side: &mut dyn Side<F>, idx: usize, total: usize) -> Result<(), ark_bulletproofs::r1cs::R1CSError> {
     let mut guard = RefCell::borrow_mut(ctx);
     let c: &mut Ctx<F> = &mut guard;
     if idx == 0 {
@@ -829,6 +909,11 @@ fn run_closure<F: PrimeField>(ctx: &SharedCtx<F>, ops: &[Op], side: &mut dyn Sid
     }
     c.closures_run += 1;
     end_of_section(c, side, idx + 1 == total, false);
+    if c.missing && c.role == Role::Prover {
+        // what a gadget would do with `?`
+        return Err(ark_bulletproofs::r1cs::R1CSError::MissingAssignment);
+    }
+    Ok(())
 }
 
 /// Build a real `Prover` from a program. Returns the prover (ready for `prove`), the shared
@@ -862,8 +947,7 @@ pub fn build_prover<'g, G: AffineRepr, T: BorrowMut<Transcript>>(
                     r.verif_override_gate(i, l, rr, o)
                 };
                 let mut side = Side2 { r: rcs, ov: Some(&ov) };
-                run_closure(&c2, &body, &mut side, idx, total);
-                Ok(())
+                run_closure(&c2, &body, &mut side, idx, total)
             })
             .unwrap();
     }
@@ -896,8 +980,7 @@ pub fn build_verifier<G: AffineRepr, T: BorrowMut<Transcript>>(
         verifier
             .specify_randomized_constraints(move |rcs| {
                 let mut side = Side2 { r: rcs, ov: None };
-                run_closure(&c2, &body, &mut side, idx, total);
-                Ok(())
+                run_closure(&c2, &body, &mut side, idx, total)
             })
             .unwrap();
     }
